@@ -804,17 +804,9 @@ func (p *Parser) evaluateImports(ctx context) ([]Statement, error) {
 	for i, statement := range statementsTemp {
 		exists := false
 
+		// Variables of an imported file are not added to the context because they can only be used by the file
+		// itself (otherwise its prefixed name, e.g. mac65d3e_Counter, could be used without being defined).
 		switch statement.StatementType() {
-		case STATEMENT_TYPE_VAR_DEFINITION:
-			definedVariable := statement.(VariableDefinition)
-
-			for _, variable := range definedVariable.Variables() {
-				name := variable.Name()
-
-				if _, exists = ctx.variables[name]; !exists && variable.Public() {
-					ctx.variables[name] = variable
-				}
-			}
 		case STATEMENT_TYPE_FUNCTION_DEFINITION:
 			definedFunction := statement.(FunctionDefinition)
 			name := definedFunction.Name()
